@@ -392,6 +392,18 @@ def _bounded_case(seed: int) -> Dict[str, Any]:
     a = rng.randint(0, 30)
     b = a + rng.randint(0, 40)
     check("TimeRangeFilter", tf.TimeRangeFilter((a, b)), enc, None, lambda r: r["ts"] >= a and r["ts"] + r["dur"] <= b, dec)
+    if len(dec):
+        # boundaries taken from the data (events that start exactly at the range end, zero-duration events on a boundary), on the
+        # frame as drawn and on the same frame sorted by start time (as the analyses usually hold it)
+        tss = sorted(set(int(x) for x in dec["ts"]))
+        a2 = rng.choice(tss)
+        b2 = rng.choice([t for t in tss if t >= a2] + [max(int(x + d) for x, d in zip(dec["ts"], dec["dur"]))])
+        b2 = max(a2, b2)
+        in2 = lambda r: r["ts"] >= a2 and r["ts"] + r["dur"] <= b2
+        check("TimeRangeFilter.data_boundaries", tf.TimeRangeFilter((a2, b2)), enc, None, in2, dec)
+        enc_s, dec_s = enc.sort_values("ts", kind="stable"), dec.sort_values("ts", kind="stable")
+        check("TimeRangeFilter.sorted_by_start", tf.TimeRangeFilter((a2, b2)), enc_s, None, in2, dec_s)
+        check("TimeRangeFilter.sorted_by_start.drawn_range", tf.TimeRangeFilter((a, b)), enc_s, None, lambda r: r["ts"] >= a and r["ts"] + r["dur"] <= b, dec_s)
     dev = lambda r: (r["stream"] >= 0 and r["correlation"] >= 0) or r["name"] in ("Event Sync", "Context Sync")
     check("GPUKernelFilter.st", tf.GPUKernelFilter(), enc, st, dev, dec)
     check("CPUOperatorFilter.st", tf.CPUOperatorFilter(), enc, st, lambda r: not dev(r), dec)
@@ -415,6 +427,13 @@ def _bounded_case(seed: int) -> Dict[str, Any]:
         check("Composite.reused_object.first_table", comp_reused, enc, st, lambda r: mt(r) and r["rank"] in rkl, dec)
         check("Composite.reused_object.second_table", comp_reused, enc2, st2, lambda r: mt(r) and r["rank"] in rkl, dec)
     check("NameFilter.encoded_ctor", tf.NameFilter(pat, symbol_table=st), enc, None, mt, dec)
+    if len(dec):
+        # an encoded frame that ALSO carries the shortened display names (Trace.decode_symbol_ids(use_shorten_name=True) adds `s_name`):
+        # with a symbol table the pattern is matched against the full decoded name, not against the display name
+        short = enc.copy()
+        short["s_name"] = [re.sub(r"[<(].*$", "", n).replace("void ", "").strip() or "x" for n in dec["name"]]
+        check("NameFilter.encoded_with_display_names", tf.NameFilter(pat), short, st, mt, dec.assign(s_name=short["s_name"]))
+        check("NameFilter.encoded_with_display_names.ctor", tf.NameFilter(pat, symbol_table=st), short, None, mt, dec.assign(s_name=short["s_name"]))
     if len(dec):
         check("NameFilter.decoded", tf.NameFilter(pat), dec, None, mt, dec)
         both = enc.copy()
